@@ -375,7 +375,8 @@ def _deps_on_path(fn, flags):
                 deps[s.target.id] = deps.get(s.target.id, set()) | used(
                     s.value)
             elif isinstance(s, ast.Return):
-                v = s.value
+                from ..loader import returned_expr
+                v = returned_expr(fn, s) if s.value is not None else None
                 if isinstance(v, ast.Tuple):
                     return [used(e) for e in v.elts]
                 return [used(v)] if v is not None else []
